@@ -503,3 +503,80 @@ def _shrink_rest(case, fails):
             if fails(c2):
                 c = c2
     return c
+
+
+def oracle_selftest():
+    """Hand-written disk histories: the power-loss model must produce exactly the expected images."""
+    import os as _os
+    import random as _r
+    from simkit.driver import HarnessError
+
+    def images(fs, path):
+        snap = fs.snapshot()
+        got = set()
+        for j in snap.meta_prefixes():
+            d = snap.dir_after_prefix(j)
+            ino = d.get(path)
+            if ino is None:
+                got.add(None)
+                continue
+            for _label, content in snap.data_choices(ino, _r.Random(1)):
+                got.add(content)
+        return got, snap.process_view(path)
+
+    flags = _os.O_RDWR | _os.O_CREAT | _os.O_EXCL
+    bad = []
+    # 1. write, NO fsync, rename: the name may be durable while the data is not
+    fs = simfs.SimFS()
+    fd = fs.open('/sim/dir/p', flags, 0o644)
+    fs.write(fd, b'abcdef')
+    fs.close(fd)
+    fs.rename('/sim/dir/p', '/sim/dir/d')
+    got, pv = images(fs, '/sim/dir/d')
+    if pv != b'abcdef' or None not in got or b'' not in got or b'abcdef' not in got:
+        bad.append('unsynced rename: %r / %r' % (got, pv))
+    # 2. write, fsync, rename: absent or complete, nothing else
+    fs = simfs.SimFS()
+    fd = fs.open('/sim/dir/p', flags, 0o644)
+    fs.write(fd, b'abcdef')
+    fs.fsync(fd)
+    fs.close(fd)
+    fs.rename('/sim/dir/p', '/sim/dir/d')
+    got, pv = images(fs, '/sim/dir/d')
+    if got != {None, b'abcdef'}:
+        bad.append('synced rename: %r' % (got,))
+    # 3. replace an existing, durable destination after fsync: old or new, never absent
+    fs = simfs.SimFS()
+    fs.preload('/sim/dir/d', b'OLD', 0o644)
+    fd = fs.open('/sim/dir/p', flags, 0o644)
+    fs.write(fd, b'NEW!')
+    fs.fsync(fd)
+    fs.close(fd)
+    fs.rename('/sim/dir/p', '/sim/dir/d')
+    got, pv = images(fs, '/sim/dir/d')
+    if got != {b'OLD', b'NEW!'}:
+        bad.append('replace: %r' % (got,))
+    # 4. fsync, then more writes: the tail may be lost or torn, the synced prefix never
+    fs = simfs.SimFS()
+    fd = fs.open('/sim/dir/p', flags, 0o644)
+    fs.write(fd, b'abc')
+    fs.fsync(fd)
+    fs.write(fd, b'defgh')
+    got, pv = images(fs, '/sim/dir/p')
+    if b'abc' not in got or b'abcdefgh' not in got or any(c is not None and not c.startswith(b'abc') for c in got):
+        bad.append('tail after fsync: %r' % (got,))
+    # 5. unlink + rename is two steps: the destination can be absent in between
+    fs = simfs.SimFS()
+    fs.preload('/sim/dir/d', b'OLD', 0o644)
+    fd = fs.open('/sim/dir/p', flags, 0o644)
+    fs.write(fd, b'NEW!')
+    fs.fsync(fd)
+    fs.close(fd)
+    fs.unlink('/sim/dir/d')
+    fs.rename('/sim/dir/p', '/sim/dir/d')
+    got, pv = images(fs, '/sim/dir/d')
+    if None not in got:
+        bad.append('unlink+rename: %r' % (got,))
+    if bad:
+        raise HarnessError('simfs durability model self-test failed: ' + '; '.join(bad))
+    return '5 hand-written disk histories give exactly the expected power-loss images'
